@@ -182,16 +182,26 @@ def track(inside, valid, name):
     return inside, valid
 
 
-def enabled(inside, name):
-    if name == "copy_switch":
-        return True
+def enabled(inside, name, depth=None):
+    """with-blocks on the one object may be nested (depth = number of with-blocks currently open); the environment does
+    not swap the file while the object holds an open handle"""
+    if depth is None:
+        depth = 1 if inside else 0
     if name in ("clobber", "restore"):
         return not inside
-    if name == "enter":
-        return not inside
     if name in ("exit", "exit_exn"):
-        return inside
+        return depth > 0
     return True
+
+
+def track_depth(depth, valid, name):
+    if name == "enter" and valid:
+        return depth + 1
+    if name in ("exit", "exit_exn"):
+        return depth - 1
+    if name == "copy_switch":
+        return 0
+    return depth
 
 
 def run_sequence(chk, work, rng, idx, seq):
@@ -214,10 +224,11 @@ def run_sequence(chk, work, rng, idx, seq):
 
 
 def well_bracketed(seq, inside0=False):
-    inside, valid = inside0, True
+    inside, valid, depth = inside0, True, 1 if inside0 else 0
     for name in seq:
-        if not enabled(inside, name):
+        if not enabled(inside, name, depth):
             return False
+        depth = track_depth(depth, valid, name)
         inside, valid = track(inside, valid, name)
     return True
 
@@ -309,6 +320,7 @@ def run(chk):
                 ["allow_write", "enter", "exit_exn"], ["allow_write", "enter", "exit_exn", "enter"], ["enter", "allow_write"],
                 ["allow_write", "has_events"], ["allow_write", "enter", "add_block", "exit"],
                 ["allow_write", "copy_switch"], ["allow_write", "enter", "copy_switch"], ["allow_write", "enter", "add_block", "copy_switch", "enter"],
+                ["enter", "allow_write", "enter", "exit"], ["allow_write", "enter", "enter", "exit"], ["enter", "allow_write", "enter", "exit", "enter"],
                 ["clobber"], ["enter", "exit", "clobber"], ["allow_write", "clobber", "enter"], ["clobber", "has_events", "restore"],
                 ["allow_write", "clobber", "blocks", "restore", "enter"]]
     L = 2 if chk.tier == "quick" else 3
@@ -323,26 +335,27 @@ def run(chk):
                     seqs.append(s)
     nrand = 300 if chk.tier == "quick" else 4000
     for _ in range(nrand):
-        s, inside, valid = [], False, True
+        s, inside, valid, depth = [], False, True, 0
         for _ in range(rng.randrange(3, 13)):
             r = rng.random()
             if r < 0.35:
-                name = rng.choice([c for c in CONTROL if enabled(inside, c)])
+                name = rng.choice([c for c in CONTROL if enabled(inside, c, depth)])
             elif r < 0.7:
                 name = rng.choice(MUTATORS)
             else:
                 name = rng.choice(READERS)
             s.append(name)
+            depth = track_depth(depth, valid, name)
             inside, valid = track(inside, valid, name)
         seqs.append(s)
     chk.extra["exhaustive_tail_length"] = L
     chk.extra["prefix_modes"] = len(prefixes)
     chk.rule = ("call sequences on a Tdf object over a file holding one block: every tail of length <= L (stated in "
                 "exhaustive_tail_length) over the 33-call alphabet {allow_write, enter, exit, exit-by-exception, continue with the object copy() returns, somebody replaces the file by non-TDF bytes / puts it back (only while no context is open)} + 12 mutator "
-                "requests (add valid/duplicate, remove present/absent, replace with another / with equal content, the five setters, a setter with equal content) + 14 readers, after each of 18 "
+                "requests (add valid/duplicate, remove present/absent, replace with another / with equal content, the five setters, a setter with equal content) + 14 readers, after each of 21 "
                 "prefix modes (no context; allow_write only; read-only context; write context; re-entered after a write context; "
                 "after exit by exception; re-entered after that; allow_write inside a read-only context; allow_write consumed by "
-                "a reader; after a successful write session; on a copy taken with the permission pending, taken inside a write context, and entered after that; with the file clobbered — before any context, after one, with the permission pending, after a refused reader and restored, after a refused reader, restored and entered), plus random sequences of 3-12 calls; observed after each call: "
+                "a reader; after a successful write session; on a copy taken with the permission pending, taken inside a write context, and entered after that; with-blocks nested on the one object (a write block inside a read block and left again; a read block inside a write block; a third block opened after that); with the file clobbered — before any context, after one, with the permission pending, after a refused reader and restored, after a refused reader, restored and entered), plus random sequences of 3-12 calls; observed after each call: "
                 "raised? (mutators), bytes changed?, handler state, _inside_context, the == operand's file; non-trivial = contains "
                 "a mutator")
     results = []
